@@ -162,7 +162,24 @@ def run(P, item):
             continue
         if o.status == 'panic':
             res['classes'].add('panic')
-            res['failed'].append(dict(prop='C16', clause='no panic', kind='conc', msg=str(o.res), cfg=f"CONC/{name}", op=_progs_str(progs_spec), witness=None)); continue
+            stash = getattr(ctx, 'stash', None); w = None
+            if stash is not None and ctx.check():
+                model = ctx.solver.model()
+                def ev(t):
+                    if is_conc(t): return int(t)
+                    v = model.eval(t, model_completion=True)
+                    return v.as_long() if z3.is_int_value(v) else (True if z3.is_true(v) else False if z3.is_false(v) else str(v))
+                locks = [e for e in ctx.events[stash['nlock0']:] if e[0] in ('lock', 'unlock')]
+                ttl_ = wrap.subjects()[name]['intended']['ttl']; sleep_ms = 0
+                if ttl_:
+                    A_ = wrap.subjects()[name]['flavour'] == 'A'; clk = ctx.sys_vars if A_ else ctx.now_vars
+                    if len(clk) >= 2:
+                        span = ev(clk[-1]) - ev(clk[0])
+                        if isinstance(span, int) and span >= (ttl_ if A_ else ttl_ * 1000000000): sleep_ms = min(ttl_, 5) * 1000 + 150
+                w = dict(sleep_ms=sleep_ms, subject=name, progs=progs_spec, nfill=nfill, panic=str(o.res), sched=list(ctx.sched_trace), locks=[[str(x) for x in e] for e in locks],
+                         fills=[[ev(x) for x in t] for t in stash['fills']], fresh=[[ev(x) for x in v] for k, v in stash['fresh']], fresh_keys=[list(k) for k, v in stash['fresh']],
+                         pred=[(cn, render_key(k, ev), ev(b)) for cn, k, b in stash['env']['pred'].memo])
+            res['failed'].append(dict(prop='C16', clause='no panic', kind='conc', msg=str(o.res), cfg=f"CONC/{name}", op=_progs_str(progs_spec), witness=w)); continue
         d = o.res; claims = []
         oracle(item, d, claims, res['classes'], ctx)
         for prop, clause, f in claims:
